@@ -197,6 +197,20 @@ pub fn run_prop(ctx: &Ctx, model: &mut Model, rep: &mut Report, prop: &str) {
             }
         }
     }
+    // repaired defects: their witnesses run as ordinary corpus cases
+    for f in known::load(ctx, prop).into_iter().filter(|f| f.status == "fixed") {
+        if let Some(a) = f.witness.get("acts").and_then(|a| a.as_str()) {
+            let acts = parse_acts(a);
+            let notes = f.witness["notes"].as_u64().unwrap_or(1) as usize;
+            rep.evaluations += 1;
+            rep.count("corpus_fixed_witnesses");
+            let out = sched::run_schedule(notes, &acts);
+            let vd = oracle(notes, &acts, &out);
+            if let Some(what) = if with_panics { vd.c12 } else { vd.c11 } {
+                rep.fail(json!({"kind": "schedule", "notes": notes, "acts": acts_sexp(&acts), "what": format!("regression of repaired defect {}: {}", f.id, what)}));
+            }
+        }
+    }
     let n = if ctx.thorough { 1500 } else { 120 };
     for i in 0..n {
         let mut r = Rng::for_case(ctx.seed ^ if with_panics { 0xC12 } else { 0xC11 }, i as u64);
